@@ -39,6 +39,17 @@ def combos(ctx, rnd):
               (['d', 'f', '!*/'], ('d', 'f'), ('*/',), N, False), ('*|*e|d', ('*', '*e', 'd'), (), SP | SD, False), ('{*,d,f}', ('*', 'd', 'f'), (), B | SD, False),
               (['!a'], (), ('a',), N | NA | S, False), (['!**/x'], (), ('**/x',), N | NA | S, False), (['*', '*'], ('*', '*'), (), NU, True),
               (['**', 'a/*'], ('**', 'a/*'), ('**/x',), S | NU, True), (['a', './a', 'a/'], ('a', './a', 'a/'), (), 0, True)]
+    for q in ['*', 'a', 'd', '**', 'd/*', 'd/**', '*/*', 'Data', 'p/q', '?']:
+        for fl in (S, S | NU, S | SD):
+            cases.append(([q, q + '/'], (q, q + '/'), (), fl, True))
+            cases.append(([q + '/', q], (q + '/', q), (), fl, True))
+            cases.append((['d/**', '*/'], ('d/**', '*/'), (), fl, True))
+    # exclusions against hidden entries reached through a literal dot (exclusions always behave as if DOTGLOB were set)
+    for inc in (['.*'], ['.d/*', 'a/.*'], ['**/.*'], ['*', '.*']):
+        for ex in (['*'], ['**/x'], ['*/x'], ['**/*'], ['.*/']):
+            for fl in (S, S | D):
+                cases.append((list(inc), tuple(inc), tuple(ex), fl, True))
+                cases.append((list(inc) + ['!' + e for e in ex], tuple(inc), tuple(ex), fl | N, False))
     out = []
     for k, c in enumerate(cases):
         ts = names if not ctx.quick else [names[(k + j) % len(names)] for j in range(3)] + (['case'] if c[3] & I else [])
